@@ -767,7 +767,7 @@ class Engine:
             v = self.eval(tree, sframe)
         finally:
             self.spec_mode = saved
-        if isinstance(v, (VBool, VInt, VNone, VStr, VSeq, VObj, VTup, VFloat, VCls, VRec, VDec, VOpaque)):
+        if isinstance(v, (VBool, VInt, VNone, VStr, VSeq, VObj, VTup, VFloat, VCls, VRec, VDec, VOpaque, VMap, VDict, VExc, VFunc)):
             if isinstance(v, VBool):
                 return v.t
             return v
@@ -1033,7 +1033,8 @@ class Engine:
             key = ast.unparse(node.args[0])
             if key not in frame.old:
                 raise ContractError("old(%s) was not snapshotted" % key)
-            return frame.old[key]
+            ov = frame.old[key]
+            return VBool(ov) if z3.is_expr(ov) else ov
         fn = self.eval(node.func, frame)
         args = []
         for a in node.args:
